@@ -42,6 +42,7 @@ RExpr(e, vs, fs) ==
                                  !.as = [i \in 1..Len(e.as) |-> RExpr(e.as[i], vs, fs)]]
     [] e.k = "mcall" -> [e EXCEPT !.o = RExpr(e.o, vs, fs), !.as = [i \in 1..Len(e.as) |-> RExpr(e.as[i], vs, fs)]]
     [] e.k = "member" -> [e EXCEPT !.o = RExpr(e.o, vs, fs)]
+    [] e.k = "callx" -> [e EXCEPT !.o = RExpr(e.o, vs, fs), !.as = [i \in 1..Len(e.as) |-> RExpr(e.as[i], vs, fs)]]
     [] OTHER -> e
 
 \* Every declaring node carries its own label `d` (parameters: `pd[j]`), unique in the
@@ -150,6 +151,7 @@ CExpr(e, vs, fs) ==
          IN args \cup (IF ar < 0 THEN {"undeclared-function"} ELSE IF ar # Len(e.as) THEN {"arity"} ELSE {})
     [] e.k = "mcall" -> CExpr(e.o, vs, fs) \cup UNION {CExpr(e.as[j], vs, fs) : j \in 1..Len(e.as)}
     [] e.k = "member" -> CExpr(e.o, vs, fs)
+    [] e.k = "callx" -> CExpr(e.o, vs, fs) \cup UNION {CExpr(e.as[j], vs, fs) : j \in 1..Len(e.as)}
     [] OTHER -> {}
 
 AddTy(scopes, name, ty) == [scopes EXCEPT ![Len(scopes)] = Append(@, [n |-> name, ty |-> ty])]
